@@ -5,7 +5,9 @@ ENTRY = {
                   "+ exhaustive enumeration of short call sequences x 21 writer capability families x byte limits x source fault points "
                   "+ rapid random sequences up to length 8 + differential between sibling writers that differ only in the optional fast paths",
         level_text="Call sequences on c.Writer() (WriteHeader with informational, 101, final and repeated codes; Write; WriteString; ReadFrom; "
-                   "FlushError; Push; deadlines; EnableFullDuplex; Hijack last) are run inside a handler during ServeHTTP on a fresh router. The "
+                   "FlushError; Push; deadlines; EnableFullDuplex; Hijack anywhere - what follows a Hijack that failed, for want of the capability or because the underlying Hijack "
+                   "returned an error, is judged like any other call) are run inside a handler during ServeHTTP on a fresh router, in a fifth of the cases inside a second router that the "
+                   "first router's handler enters with its own c.Writer() (the outer writer must then tell the same truth). The "
                    "underlying writer is a recording writer from 21 concrete types (plain, each single capability, ReaderFrom combined with "
                    "Flusher/FlushError/StringWriter, all, all but one) that accepts at most k body bytes in total (k in {0,1,3,6,unlimited}); ReadFrom "
                    "sources yield j bytes and then end or fail (j from 0, error with or after the last bytes, 1-2 bytes per Read). After EVERY call "
